@@ -145,6 +145,8 @@ func ImportDriver(spec string) [][]Action {
 		return drvFileComments(r, count)
 	case "scale":
 		return drvScale(r, count)
+	case "lateanon":
+		return drvLateAnon(r, count)
 	}
 	fatal("unknown import driver " + name)
 	return nil
@@ -869,6 +871,41 @@ func drvScale(r *rand.Rand, n int) [][]Action {
 			h = append(h, Action{A: "Add", Tree: varQ(p, st.sym(p))})
 		}
 		out = append(out, light(append(h, Action{A: "Render"})))
+	}
+	return out
+}
+
+// drvLateAnon: a path is referenced and rendered, THEN made an anonymous import as well, and the File is rendered again
+// (the reference is still in the body: it must still resolve, the block must still be exact, names must stay legal and
+// unique).  Not part of C08's histories: what name the path has afterwards is outside that property.
+func drvLateAnon(r *rand.Rand, n int) [][]Action {
+	out := [][]Action{}
+	pool := []string{"x/d", "y/d", "z/d", "fmt", "embed", "math/rand", "crypto/rand", "q/go", "C", "image/png", "x/fmt"}
+	for i := 0; i < n/4+8; i++ {
+		st := &symtab{}
+		h := []Action{newAct("", []string{"", "pkg"}[r.Intn(2)])}
+		k := 1 + r.Intn(4)
+		used := []string{}
+		for j := 0; j < k; j++ {
+			p := pool[r.Intn(len(pool))]
+			used = append(used, p)
+			h = append(h, Action{A: "Add", Tree: varQ(p, st.sym(p))})
+		}
+		h = append(h, Action{A: "Render"})
+		// the path looked up last, or any other one
+		p := used[len(used)-1]
+		if r.Intn(3) == 0 {
+			p = used[r.Intn(len(used))]
+		}
+		if p != "C" {
+			h = append(h, Action{A: "Anon", P: p})
+		}
+		h = append(h, Action{A: "Render"})
+		if r.Intn(2) == 0 {
+			q := pool[r.Intn(len(pool))]
+			h = append(h, Action{A: "Add", Tree: varQ(q, st.sym(q))}, Action{A: "Render"})
+		}
+		out = append(out, h)
 	}
 	return out
 }
